@@ -201,8 +201,10 @@ def make_filtered(cx, src: Arr, mask: Arr) -> Filtered:
     if key not in cache:
         _g_counter[0] += 1
         k = _g_counter[0]
-        g = z3.Function(f"g{k}", z3.IntSort(), z3.IntSort())
-        ginv = z3.Function(f"ginv{k}", z3.IntSort(), z3.IntSort())
+        gd = z3.Function(f"g{k}", z3.IntSort(), z3.IntSort())
+        ginvd = z3.Function(f"ginv{k}", z3.IntSort(), z3.IntSort())
+        g = lambda x: V.app(gd, x)  # noqa: E731
+        ginv = lambda x: V.app(ginvd, x)  # noqa: E731
         m = cx.fresh("count")
         n = mask.shape[0]
         cx.assume(z3.And(m >= 0, m <= V.to_z3(n)))
@@ -232,8 +234,8 @@ def make_filtered(cx, src: Arr, mask: Arr) -> Filtered:
                 z3.And(ginv(ii) >= 0, ginv(ii) < m, g(ginv(ii)) == ii),
             )
 
-        u1 = UnivFact(1, f1, decls=[g])
-        u2 = UnivFact(1, f2, decls=[ginv])
+        u1 = UnivFact(1, f1, decls=[gd])
+        u2 = UnivFact(1, f2, decls=[ginvd])
         cx.univ.extend([u1, u2])
         cache[key] = (g, ginv, m, u1, u2, mask)
     g, ginv, m, u1, u2, _ = cache[key]
@@ -1010,6 +1012,10 @@ def module_attr(interp, full):
 
 def call_external(interp, dotted, args, kwargs):
     f = NP_FUNCS.get(dotted)
+    if dotted == "collections.namedtuple":
+        from .interp import Builtin
+
+        return Builtin("namedtuple", lambda interp, *a, **k: tuple(a))
     if f is None:
         raise Unsupported(f"external function {dotted} has no assumed contract")
     interp.cx.ghost.setdefault("externals_used", set()).add(dotted)
